@@ -27,12 +27,16 @@ def run(ctx):
     ctx.rule("R08-4", "at execve / builtin-in-subprocess no non-CLOEXEC descriptor is still owned by the child: "
                       "adjacent pipe ends closed after dup2, later pipes closed, capture pipes closed in every "
                       "stage, here-string ends closed, every dup() result used as a dup2 source closed")
+    ctx.rule("R08-6", "descriptors a redirection helper hands to the child are close-on-exec: create_raw_fd_from_file returns "
+                      "only descriptors obtained from std's File (opened with O_CLOEXEC), never a dup / dup2 / fcntl / pipe "
+                      "result - the child dup2()s the value onto 1 or 2 and does not close the original")
     ctx.rule("R08-5", "no operation names a pipe end the shell already released at an earlier stage "
                       "(pipes[idx-1].1, closed by P1 of the previous stage) while a descriptor created since - the "
                       "here-string pipe - is live: the number may have been reused, and the operation hits the newer "
                       "descriptor (the child loses its here-string; the shell then writes into a pipe without reader "
                       "and is killed by SIGPIPE)")
     for crate in ctx.crates:
+        cloexec_rule(ctx, crate)
         scalar_rule(ctx, crate)
         body = crate.fn("core::run_single_program")
         pl = crate.fn("core::run_pipeline")
@@ -176,3 +180,26 @@ def dup_rule(ctx, crate, body):
                    key="R08-4|%s|K7 %s#%d" % (body.path, d, n), where=body.loc(bb), crate=crate.kind,
                    detail=("descriptor survives into the program (exec at %s)" % body.loc(res.leaks[0][0]))
                    if res.leaks else None)
+
+
+def cloexec_rule(ctx, crate):
+    from .. import flow
+    b = crate.fn("tools::create_raw_fd_from_file")
+    if not ctx.require(b is not None, "R08-6", "R08-6|anchor", "tools::create_raw_fd_from_file not found"):
+        return
+    ctx.analysed(b)
+    NOT_CLOEXEC = ("dup", "dup2", "dup3", "fcntl", "pipe", "pipe2", "socketpair", "open", "openat", "creat")
+    bad = None
+    n = 0
+    for bi, si in b.defs.get(0, []):
+        e = b.def_expr(bi, si)
+        n += 1
+        hit = flow.backward(b, e, lambda z: z[0] == "call" and last_seg(z[1]) in NOT_CLOEXEC and
+                            ("libc" in z[1] or "nix" in z[1] or "libs::" in z[1]))
+        if hit is not None:
+            bad = (bi, mir.short(hit[1]))
+    ok = bad is None and n >= 1
+    ctx.ob("R08-6", b.path, "every descriptor create_raw_fd_from_file returns comes from a std File (O_CLOEXEC)", ok,
+           key="R08-6|%s|not-cloexec" % b.path, where=b.loc(bad[0]) if bad else "", crate=crate.kind,
+           detail=None if ok else "%s yields a descriptor without FD_CLOEXEC: after dup2(fd, 1|2) in the child the original "
+           "stays open across execve and the program starts with an extra descriptor" % bad[1])
